@@ -62,14 +62,14 @@ func runFuzz(rc *runCtx, u Unit, replayInput string) unitResult {
 		data, err := os.ReadFile(replayInput)
 		h.Must(err)
 		h.Must(os.WriteFile(filepath.Join(corpus, "replayinput"), data, 0o644))
-		args = []string{"go", "test", "-vet=off", "-count=1", "-run", "^" + u.Name + "$/replayinput", u.Pkg}
+		args = []string{"go", "test", "-vet=off", "-count=1", u.Pkg, "-run", "^" + u.Name + "$/replayinput"}
 	} else {
 		ft := u.FuzzTime
 		if ft == "" {
 			ft = "60s"
 		}
-		args = []string{"go", "test", "-vet=off", "-run", "^$", "-fuzz", "^" + u.Name + "$", "-fuzztime", ft,
-			"-test.fuzzcachedir", filepath.Join(rc.work, "fuzzcache-"+u.Name), "-timeout", "0", u.Pkg}
+		args = []string{"go", "test", "-vet=off", u.Pkg, "-run", "^$", "-fuzz", "^" + u.Name + "$", "-fuzztime", ft,
+			"-test.fuzzcachedir", filepath.Join(rc.work, "fuzzcache-"+u.Name), "-timeout", "0"}
 	}
 	start := time.Now()
 	res := h.Run(h.Cmd{Dir: repo, Env: env, Args: args, Timeout: 6 * time.Hour})
